@@ -80,6 +80,7 @@ type variant struct {
 	Layout   string // "layout:" named by the front-matter: "", "main", "base"
 	Include  bool   // body includes comp.vuego
 	Less     bool   // body has a <style type="text/css+less"> block importing vars.less
+	Long     bool   // a generated source of several KiB (kept out of the ordinary random choices: slow)
 }
 
 const inc = `<template include="comp.vuego"></template>`
@@ -118,6 +119,8 @@ var variants = map[string][]variant{
 		// and ordinary text
 		14: {Content: "---\nlabel: Total\nunit: kg\npad: \"x  y\"\n---\n" + `<pre data-m="page">{{ label + ':     ' + unit }}</pre><i :title="'a   b' + unit">t {{ x }}</i><b v-if="pad == 'x  y'">padded</b><p>{{ label + ' |   | ' + unit }}</p><div>` + inc + `</div>`, LoadOK: true, RenderOK: true, Include: true},
 		15: {Content: "---\nlabel: Total\nunit: kg\npad: \"x  y\"\n---\n" + `<pre data-m="page">{{ label + ': ' + unit }}</pre><i :title="'a b' + unit">t {{ x }}</i><b v-if="pad == 'x y'">padded</b><p>{{ label + ' | | ' + unit }}</p><div>` + inc + `</div>`, LoadOK: true, RenderOK: true, Include: true},
+		// 16: reads structured caller data through expressions with operators (see testData)
+		16: {Content: `<div data-m="page">P16 {{ x }}<ul><li v-for="it in posts" :title="it.Title + ' /' + it.Slug" v-if="it.Words > 10">{{ it.Title + "!" }} {{ it.Words + 1 }}</li></ul><p v-if="lead">{{ lead.Title + "?" }} {{ lead.Words * 2 }}</p>` + inc + `</div>`, LoadOK: true, RenderOK: true, Include: true},
 		// 10: a LESS style block whose CSS depends on the imported vars.less (compiled on every
 		// render when the LESS processor is registered; left alone otherwise)
 		10: {Content: "<style type=\"text/css+less\">\n@import \"vars.less\";\n.box {\n  color: @brand;\n}\n</style>\n" + `<div data-m="page" class="box">P10 {{ title }} {{ x }}` + inc + `</div>`, LoadOK: true, RenderOK: true, Include: true, Less: true},
@@ -165,7 +168,7 @@ var variants = map[string][]variant{
 func variantsWhere(file string, loadOK bool) []int {
 	var out []int
 	for i, v := range variants[file] {
-		if v.LoadOK == loadOK {
+		if v.LoadOK == loadOK && !v.Long {
 			out = append(out, i)
 		}
 	}
@@ -212,6 +215,14 @@ func toTime(mt int64) time.Time {
 	return time.Unix(0, mt)
 }
 
+// clip shortens long texts in messages (the generated long sources).
+func clip(s string) string {
+	if len(s) > 1200 {
+		return s[:600] + fmt.Sprintf(" …[%d bytes]… ", len(s)-1200) + s[len(s)-600:]
+	}
+	return s
+}
+
 // fmtMt prints a model mtime in seconds.
 func fmtMt(mt int64) string {
 	if mt%sec == 0 {
@@ -251,11 +262,93 @@ func testData(d int) any {
 	case 4:
 		return map[string]any{}
 	}
-	return map[string]any{"title": fmt.Sprintf("D%d", d), "x": fmt.Sprintf("X%d", d)}
+	m := map[string]any{"title": fmt.Sprintf("D%d", d), "x": fmt.Sprintf("X%d", d)}
+	// Structured values whose Go type differs from render to render: two struct types with the
+	// same field names in a different order (page variant 16 reads them through expressions
+	// with operators).
+	switch d {
+	case 0:
+		m["posts"] = []dPost{{"Hello", "hello", 120}, {"Short", "short", 3}}
+		m["lead"] = dPost{"Lead", "lead", 7}
+	case 1:
+		m["posts"] = []dPage{{50, "about", "About"}, {30, "imprint", "Imprint"}}
+		m["lead"] = &dPage{9, "second", "Second"}
+	default:
+		m["posts"] = []dPage{{11, "x", "Xyz"}}
+		m["lead"] = dPost{"Third", "third", 1}
+	}
+	return m
 }
 
+type dPost struct {
+	Title string
+	Slug  string
+	Words int
+}
+
+type dPage struct {
+	Words int
+	Slug  string
+	Title string
+}
+
+// longSource builds a template source of about kib KiB: head, then a long static list, in
+// which exactly one digit of one price is changed per version (same length, another offset
+// each time): version 0 is the base, 1 and 2 change two ADJACENT digits in the middle of the
+// list, 3 changes the last digit of the last item.
+func longSource(head, tail string, kib, version int) string {
+	var sb strings.Builder
+	sb.WriteString(head)
+	sb.WriteString("<ul>")
+	n := kib * 1024 / 34
+	for i := 0; i < n; i++ {
+		price := []byte("1111")
+		switch {
+		case version == 1 && i == n/2:
+			price[0] = '2'
+		case version == 2 && i == n/2:
+			price[1] = '2'
+		case version == 3 && i == n-1:
+			price[3] = '2'
+		}
+		fmt.Fprintf(&sb, "<li>item %04d costs %s EUR</li>\n", i, price)
+	}
+	sb.WriteString("</ul>")
+	sb.WriteString(tail)
+	return sb.String()
+}
+
+func init() {
+	// generated long versions: page 17-20 (5 KiB, no layout), 21-24 (20 KiB, layout main),
+	// 25-28 (70 KiB, no layout); layouts/main.vuego 6-9 (6 KiB)
+	for _, g := range []struct {
+		kib    int
+		fm     string
+		layout string
+	}{{5, "---\ntitle: L5\n---\n", ""}, {20, "---\ntitle: L20\nlayout: main\n---\n", "main"}, {70, "", ""}} {
+		for v := 0; v < 4; v++ {
+			variants[fPage] = append(variants[fPage], variant{
+				Content: longSource(g.fm+`<div data-m="page">PL {{ title }} {{ x }}`, `</div>`, g.kib, v),
+				LoadOK:  true, RenderOK: true, Layout: g.layout, Long: true})
+		}
+	}
+	for v := 0; v < 4; v++ {
+		variants[fMain] = append(variants[fMain], variant{
+			Content: longSource(`<main data-m="main">ML {{ title }}`, `<div v-html="content"></div></main>`, 6, v),
+			LoadOK:  true, RenderOK: true, Long: true})
+	}
+}
+
+// index of the first generated long variant per file and size
+const (
+	pageLong5  = 17
+	pageLong20 = 21
+	pageLong70 = 25
+	mainLong6  = 6
+)
+
 // enumData: the data variant of the render at position pos of an enumerated history.
-var enumData = []int{3, 0, 4, 1}
+var enumData = []int{3, 0, 1, 4}
 
 func doRender(entry, target string, d int, root vuego.Template, vue *vuego.Vue) (string, error) {
 	var buf bytes.Buffer
@@ -288,7 +381,7 @@ func describeFiles(fs *memfs.FS, m *model) string {
 		if m.st[n].blocked {
 			extra = ", unreadable: permission error"
 		}
-		fmt.Fprintf(&sb, "\n    %s (mtime %s%s): %q", n, fmtMt(m.st[n].mt), extra, files[n])
+		fmt.Fprintf(&sb, "\n    %s (mtime %s%s): %q", n, fmtMt(m.st[n].mt), extra, clip(files[n]))
 	}
 	if m.store == storeOverlayMixed {
 		sb.WriteString("\n    (these are the Open-only upper layer of an overlay; the lower layer holds variant 2 of page, component and main layout with mtime 50)")
@@ -443,7 +536,7 @@ func execute(c Case) (error, stats) {
 		where := fmt.Sprintf("step %d: %s(%s)", i, op.Entry, target)
 		if (gotErr == nil) != (wantErr == nil) {
 			return fmt.Errorf("%s: long-lived engine err=%v, engine created now err=%v\n  long-lived output: %q\n  fresh output: %q\n  files now:%s",
-				where, gotErr, wantErr, got, want, describeFiles(fs, m)), s
+				where, gotErr, wantErr, clip(got), clip(want), describeFiles(fs, m)), s
 		}
 		if gotErr != nil {
 			s.errBoth++
@@ -472,7 +565,7 @@ func execute(c Case) (error, stats) {
 					d += " (white space only)"
 				}
 				return fmt.Errorf("%s: long-lived engine renders something else than an engine created now: %s\n  long-lived: %q\n  fresh:      %q\n  files now:%s",
-					where, d, got, want, describeFiles(fs, m)), s
+					where, d, clip(got), clip(want), describeFiles(fs, m)), s
 			}
 		}
 	}
@@ -538,6 +631,9 @@ func classify(c Case) (bool, []string) {
 	}
 	if c.ZeroInit {
 		cls = append(cls, "init:no-mtimes")
+	}
+	if v, ok := c.Init[fPage]; ok && variants[fPage][v].Long {
+		cls = append(cls, "long-sources")
 	}
 	if s.errBoth > 0 {
 		cls = append(cls, "has-failing-render")
@@ -675,6 +771,14 @@ var alphabetValues = []letter{
 	{op: "edit", file: fMain, dt: 1},
 }
 
+// alphabetLong: for enum-long.
+var alphabetLong = []letter{
+	{op: "render", entry: eVueRender},
+	{op: "render", entry: eLoadRender},
+	{op: "edit", file: fPage, dt: 1},
+	{op: "edit", file: fMain, dt: 1},
+}
+
 // alphabetLess: for the LESS engine option.
 var alphabetLess = []letter{
 	{op: "render", entry: eVueRender},
@@ -695,17 +799,22 @@ var enumBad = map[string]int{fPage: 5, fComp: 3, fMain: 3, fBase: 2}
 type engineOpt struct {
 	proc, store string
 	zeroInit    bool
-	pairs       map[string][2]int // overrides enumPair
+	pairs       map[string][]int // overrides enumPair: the cycle of contents a file goes through
 }
 
 // nextOf picks the member of the file's alternating pair that differs from what it holds now.
-func nextOf(file string, curV map[string]int, pairs map[string][2]int) int {
+func nextOf(file string, curV map[string]int, pairs map[string][]int) int {
 	p, ok := pairs[file]
 	if !ok {
-		p = enumPair[file]
+		q := enumPair[file]
+		p = q[:]
 	}
-	if v, ok := curV[file]; ok && v == p[0] {
-		return p[1]
+	if v, ok := curV[file]; ok {
+		for i, x := range p {
+			if x == v {
+				return p[(i+1)%len(p)]
+			}
+		}
 	}
 	return p[0]
 }
@@ -828,7 +937,7 @@ func genCase(t *rapid.T) Case {
 	blocked := map[string]bool{}
 	cur := map[string]int{fPage: -1, fComp: -1, fMain: -1, fBase: -1, fRel: -1, fLess: -1} // -1 = absent
 	pick := func(label string, xs []int) int { return rapid.SampledFrom(xs).Draw(t, label) }
-	c.Init[fPage] = pick("init-page", []int{11, 13, 1, 14, 12, 8, 0, 15, 9, 2, 3, 4, 7})
+	c.Init[fPage] = pick("init-page", []int{11, 16, 13, 1, 14, 12, 8, 0, 15, 9, 2, 3, 4, 7})
 	c.Init[fComp] = pick("init-comp", []int{0, 5, 1, 2, 6})
 	c.Init[fMain] = pick("init-main", []int{4, 5, 0, 1, 2})
 	if rapid.Bool().Draw(t, "init-base") {
@@ -846,10 +955,20 @@ func genCase(t *rapid.T) Case {
 			c.Init[fLess] = pick("init-less-v", []int{0, 1, 2})
 		}
 	}
+	// one case in forty works on the generated long sources (5 / 20 / 70 KiB page, 6 KiB layout)
+	longFirst := -1
+	if c.Proc != procLess && rapid.IntRange(0, 39).Draw(t, "long-sources") == 0 {
+		longFirst = rapid.SampledFrom([]int{pageLong5, pageLong5, pageLong20, pageLong70}).Draw(t, "long-size")
+		c.Init[fPage] = longFirst + rapid.IntRange(0, 3).Draw(t, "long-v")
+		c.Init[fMain] = mainLong6 + rapid.IntRange(0, 3).Draw(t, "long-main-v")
+	}
 	for f, v := range c.Init {
 		cur[f] = v
 	}
 	n := rapid.IntRange(5, 15).Draw(t, "len")
+	if longFirst >= 0 {
+		n = rapid.IntRange(4, 8).Draw(t, "len-long")
+	}
 	// weighted choices (SampledFrom is uniform over the slice)
 	kinds := []string{"render", "render", "render", "render", "render", "render", "render-twice", "render-twice", "render-twice",
 		"edit", "edit", "edit", "edit", "edit", "edit", "edit", "edit", "edit", "invalid", "invalid", "delete", "delete",
@@ -918,6 +1037,12 @@ func genCase(t *rapid.T) Case {
 				name = "recreate"
 			}
 			good := variantsWhere(f, true)
+			if longFirst >= 0 && f == fPage {
+				good = []int{longFirst, longFirst + 1, longFirst + 2, longFirst + 3}
+			}
+			if longFirst >= 0 && f == fMain {
+				good = []int{mainLong6, mainLong6 + 1, mainLong6 + 2, mainLong6 + 3}
+			}
 			v := pick("v", good)
 			if !variants[f][v].RenderOK && rapid.Bool().Draw(t, "redraw") {
 				v = good[0] // contents whose evaluation fails are kept rarer
@@ -1007,7 +1132,16 @@ func TestProp(t *testing.T) {
 	// and component that differ only in blanks inside string literals (14/15, 5/6)
 	enumerate(t, "enum-values", alphabetValues, []map[string]int{{fPage: 13, fComp: 5, fMain: 5}, {fPage: 14, fComp: 5, fMain: 0}},
 		run.Pick([]int{3, 4}, []int{5, 5}),
-		[]engineOpt{{pairs: map[string][2]int{fPage: {15, 14}, fComp: {6, 5}, fMain: {5, 0}}}})
+		[]engineOpt{{pairs: map[string][]int{fPage: {15, 14}, fComp: {6, 5}, fMain: {5, 0}}}})
+	// data shapes: the caller's data changes its Go types from render to render (page 16)
+	enumerate(t, "enum-data", alphabetValues, []map[string]int{{fPage: 16, fComp: 0, fMain: 0}}, run.Pick([]int{3}, []int{5}),
+		[]engineOpt{{pairs: map[string][]int{fPage: {13, 16}}}})
+	// sizes: sources of 5, 20 and 70 KiB (and a 6 KiB layout) whose versions have the same length
+	// and differ in one digit, at another offset each
+	for _, first := range []int{pageLong5, pageLong20, pageLong70} {
+		enumerate(t, "enum-long", alphabetLong, []map[string]int{{fPage: first, fComp: 0, fMain: mainLong6}}, run.Pick([]int{3}, []int{4}),
+			[]engineOpt{{pairs: map[string][]int{fPage: {first + 1, first + 2, first + 3, first}, fMain: {mainLong6 + 1, mainLong6 + 2, mainLong6 + 3, mainLong6}}}})
+	}
 	// vuego's LESS processor with a style block importing vars.less
 	enumerate(t, "enum-less", alphabetLess, []map[string]int{{fPage: 10, fComp: 0, fMain: 0, fLess: 0}}, run.Pick([]int{4}, []int{5}),
 		[]engineOpt{{proc: procLess}})
